@@ -357,5 +357,60 @@ def generate(loader):
             out.append(f"Definition gen_io_interp_{name} : list Z * list Z * bool * bool :=\n"
                        f"  ({zl(reversed(shape))}, {zl(reversed(c['size']))}, {'true' if c['align_corners'] else 'false'}, "
                        f"{'true' if g2._align_corners else 'false'}).\n")
+        # ---- pyramid(levels, align_corners=X) with X different from the image grid's own flag: the finest level is SAMPLED
+        # (cube extents differ); pin what the sampling branch does: coordinates of the new grid w.r.t. the cube of the EFFECTIVE
+        # flag, mapped from the new grid to the image grid with THE SAME cube axes on both sides, grid_sample with that flag on the
+        # unmodified data, result carried by the new grid (the lock-step of this route is C04_sample_on_grid / C05's index theorem)
+        prow = []
+        for name, shape, gflag, xflag in (("pyr_flag_nac", (4, 8), True, False), ("pyr_flag_ac", (4, 8), False, True)):
+            g = mk_grid(G.Grid, 2, align=gflag)
+            g._size = st.Tensor(np.array([E.const(n) for n in reversed(shape)], dtype=object))
+            g._spacing = st.Tensor(np.array([E.const(1), E.const(1)], dtype=object))
+            fb = Fake(sym_image(shape), [g])
+            rec = []
+            marker = st.symvec("pyrco", 2)
+
+            def co(self, *a, **k):
+                rec.append(("coords", self, a, k))
+                return marker
+
+            def gtp(points, grid, axes, to_grid, to_axes=None):
+                rec.append(("gtp", points, grid, axes, to_grid, to_axes))
+                return points
+
+            def gs(data, points, mode=None, align_corners=None, **kw):
+                rec.append(("gs", data, points, mode, align_corners))
+                return data
+            def close(a, b, rtol=1e-5, atol=1e-8):
+                # constants are decided numerically (the cube-extent test that selects the branch); the symbolic assertions of
+                # Grid._resize are C03's proof obligations (resize_assert_ac / _nac)
+                av, bv = np.broadcast_arrays(a.a, b.a)
+                for x, y in zip(av.reshape(-1), bv.reshape(-1)):
+                    if x.is_const() and y.is_const() and abs(x.value() - y.value()) > atol + rtol * abs(y.value()):
+                        return False
+                return True
+            with patched(DI, grid_transform_points=gtp), patched(DI.U, grid_sample=gs), patched(G.Grid, coords=co), patched(st, allclose=close):
+                res = DI.ImageBatch.pyramid(fb, 1, align_corners=xflag, end=0)
+            if sorted(res) != [0] or res[0][0] != "instance":
+                raise TraceError(f"{name}: pyramid(1, end=0) does not return level 0 only")
+            newg = res[0][2][0]
+            kinds = [r[0] for r in rec]
+            if kinds != ["coords", "gtp", "gs"]:
+                raise TraceError(f"{name}: sampling branch of pyramid is not coords -> grid_transform_points -> grid_sample: {kinds}")
+            c_, t_, s_ = rec
+            want = G.Axes.from_align_corners(xflag)
+            if c_[1] is not newg or c_[2] or c_[3].get("align_corners") is not xflag or c_[3].get("normalize", True) is not True:
+                raise TraceError(f"{name}: coordinates are not those of the returned grid w.r.t. align_corners={xflag}")
+            if t_[1] is not marker or t_[2] is not newg or t_[4] is not g:
+                raise TraceError(f"{name}: points are not mapped from the returned grid to the image grid")
+            if t_[3] is not want or (t_[5] if t_[5] is not None else t_[3]) is not want:
+                raise TraceError(f"{name}: points mapped with axes {t_[3]} -> {t_[5]}, effective align_corners={xflag} needs {want} on both sides")
+            if not trlib.same_tensor(s_[1].a, fb.a) or s_[4] is not xflag or not trlib.same_tensor(s_[2].a[0], marker.a):
+                raise TraceError(f"{name}: grid_sample is not applied to the unmodified data at the mapped points with align_corners={xflag}")
+            if newg._align_corners is not xflag or not trlib.same_tensor(res[0][1].a, fb.a):
+                raise TraceError(f"{name}: returned grid flag / data")
+            prow.append(f"({'true' if gflag else 'false'}, {'true' if xflag else 'false'}, {'true' if want is G.Axes.CUBE_CORNERS else 'false'})")
+        out.append("(* pyramid sampling branch: (grid flag, effective flag, both axes of the point map are CUBE_CORNERS) *)\n"
+                   "Definition gen_io_pyramid_axes : list (bool * bool * bool) :=\n  [" + "; ".join(prow) + "].\n")
     out.append("End Gen.\n")
     return "\n".join(out)
